@@ -297,3 +297,7 @@ package pool
 //@   modifies r.msg.Token, r.msg.Code, r.msg.Options, r.msg.MessageID, r.msg.Type, r.msg.Payload, r.valueBuffer, r.body, r.isModified, r.controlMessage, r.bufferMarshal, r.bufferUnmarshal
 //@   ensures [emptied] len(r.msg.Options) == 0 && r.msg.Token == nil && r.msg.Payload == nil && r.body == nil && !r.isModified && r.msg.Code == 0
 //@   ensures [ownership-flag-kept] atomicLoad(r.hijacked) == old(atomicLoad(r.hijacked))
+//
+//@ func (*Message) IsPing(isTCP bool) (b bool)
+//@   trusted
+//@   requires r != nil
